@@ -51,7 +51,26 @@ def _worker(args):
         # non-SMT jobs (ground / bounded / analysis) registered by the module
         jobs = getattr(mod, "JOBS", {})
         if cname in jobs:
-            return jobs[cname](tier=tier, seed=seed)
+            try:
+                return jobs[cname](tier=tier, seed=seed)
+            except Exception as e:
+                # a bounded native job drives the real library: an exception escaping from library code (innermost frame under
+                # the repository) on inputs the job builds itself is a failing input, not a checker fault
+                tb = traceback.extract_tb(e.__traceback__)
+                inner = tb[-1].filename if tb else ""
+                repo_src = os.path.realpath(os.environ.get("PPTX_REPO", "/repo"))
+                if os.path.realpath(inner).startswith(repo_src + os.sep):
+                    where = "%s:%d in %s" % (os.path.relpath(inner, repo_src), tb[-1].lineno, tb[-1].name)
+                    calls = [f for f in tb if not os.path.realpath(f.filename).startswith(repo_src + os.sep)]
+                    site = "%s:%d" % (os.path.basename(calls[-1].filename), calls[-1].lineno) if calls else "?"
+                    name = "%s.library_exception" % cname
+                    prop = cname.split(".")[0]
+                    return {"contract": cname, "prop": prop, "status": "ok", "paths": 0, "assumed": [], "functions": {}, "notes": [], "solver_s": 0.0, "wall_s": 0.0,
+                            "obligations": [{"name": name, "base": name, "kind": "bounded", "status": "refuted", "backend": "native", "time": 0, "path": 0, "model": None,
+                                             "replay": {"confirmed": True, "witness_class": "library-exception",
+                                                        "detail": "the job's own well-formed input made the library raise %r at %s (job line %s)" % (e, where, site)}}],
+                            "bounded": {"name": cname, "bound": "aborted by a library exception", "evaluations": 0, "samples": [], "counted_as_proved": False}}
+                raise
         return {"contract": cname, "status": "error", "error": "contract not found", "obligations": []}
     except Exception:
         return {"contract": cname, "status": "error", "error": traceback.format_exc(), "obligations": [],
